@@ -32,7 +32,7 @@ META = {
                    'loss uninterpreted, data symbolic: a biased index, a prefix-only draw, a fixed order or a shared row under the '
                    'product strategy changes the weights and is refuted with a concrete model / loss / data set.',
     'bounds': {'quick': {'incremental (d,m,q)': 'SAGE (2,3,1) (2,2,2) (3,2,1); PFI (2,3,2) (3,3,1)', 'batch (d,n,q)': '(2,2,1) (2,2,2) (1,3,1)'},
-               'thorough': {'incremental (d,m,q)': '+ SAGE (3,3,1) (2,3,2); PFI (3,3,2)', 'batch (d,n,q)': '+ (3,2,1) (2,3,1)'}},
+               'thorough': {'incremental (d,m,q)': '+ SAGE (3,3,1) (2,3,2) (3,2,2) (2,4,2); PFI (3,3,2) (4,3,1) (2,4,3)', 'batch (d,n,q)': '+ (3,2,1) (2,3,1)'}},
     'outside': ['quality of the underlying generators (randrange / randint / permutation are trusted to be uniform over the range '
                 'they are ASKED for)', 'sizes beyond the bounds', 'tree imputer', 'continuous draws (reservoir storages decide what is '
                 'stored - C08 / C09; here the storage content is given)'],
@@ -49,8 +49,8 @@ def configs(tier):
     def add(**k):
         if k not in cfgs:
             cfgs.append(k)
-    sage = [(2, 3, 1), (2, 2, 2), (3, 2, 1)] + ([(3, 3, 1), (2, 3, 2)] if tier == 'thorough' else [])
-    pfi = [(2, 3, 2), (3, 3, 1)] + ([(3, 3, 2)] if tier == 'thorough' else [])
+    sage = [(2, 3, 1), (2, 2, 2), (3, 2, 1)] + ([(3, 3, 1), (2, 3, 2), (3, 2, 2), (2, 4, 2)] if tier == 'thorough' else [])
+    pfi = [(2, 3, 2), (3, 3, 1)] + ([(3, 3, 2), (4, 3, 1), (2, 4, 3)] if tier == 'thorough' else [])
     for strat in ('joint', 'product'):
         for (d, m, q) in sage:
             add(group='inc', cls='IncrementalSage', d=d, m=m, q=q, imputer=strat, storage='batch',
@@ -60,6 +60,11 @@ def configs(tier):
     for st in ('interval', 'geometric', 'uniform'):
         add(group='inc', cls='IncrementalSage', d=2, m=2, q=1, imputer='joint', storage=st, _cost=16)
         add(group='inc', cls='IncrementalPFI', d=2, m=3, q=1, imputer='joint', storage=st, _cost=16)
+    for cls in ('IncrementalPFI', 'IncrementalSage'):
+        for st in ('interval', 'geometric', 'uniform', 'batch'):
+            for strat in ('joint', 'product'):
+                add(group='inc_history', cls=cls, d=1 if cls == 'IncrementalPFI' else 2, m=2, cap=2, q=1, imputer=strat, storage=st,
+                    _cost=300)
     batch = [(2, 2, 1), (2, 2, 2), (1, 3, 1)] + ([(3, 2, 1), (2, 3, 1)] if tier == 'thorough' else [])
     for (d, n, q) in batch:
         for mode in ('many', 'original', 'interval'):
@@ -71,7 +76,7 @@ def configs(tier):
 def finding_key(cfg, name):
     if cfg['group'] == 'batch':
         return f"batch/{cfg['mode']}/{name.split('[')[0]}"
-    return f"inc/{cfg['cls']}/{cfg.get('imputer')}/{name.split('[')[0]}"
+    return f"{cfg['group']}/{cfg['cls']}/{cfg.get('imputer')}/{name.split('[')[0]}"
 
 
 def scenario(env, cfg):
@@ -91,7 +96,46 @@ def _fork_cls():
 def _one_path(env, cfg, ctx):
     if cfg['group'] == 'inc':
         return _inc_path(env, cfg, ctx)
+    if cfg['group'] == 'inc_history':
+        return _inc_history_path(env, cfg, ctx)
     return _batch_path(env, cfg, ctx)
+
+
+def _inc_history_path(env, cfg, ctx):
+    """two explanations by the same explainer / imputer; the storage (at capacity) is updated in between.  The expectation of
+    the SECOND call is compared with the exact value for the storage content at that moment."""
+    from .common import sym_row
+    cls = CLASSES[cfg['cls']]
+    b = build_incremental(env, cls, dict(cfg, mode='static', eff_inv=False))
+    ex, names = b['ex'], b['names']
+    if cfg['storage'] == 'geometric':
+        b['storage'].constant_probability = 1.0          # every arrival replaces a slot: the content always changes
+    guarded(env, 'explain_one#1', ex.explain_one, b['x'], b['y'], update_storage=True)
+    rows_now = list(b['storage'].get_data()[0])
+    w_before, _ = env.path_weight()
+    fed, marg = [], []
+    real_update = ex._importance_trackers.update
+    ex._importance_trackers.update = lambda values: (fed.append(dict(values)), real_update(values))[1]
+    if cls is IncrementalSage:
+        real_m = ex._marginal_loss_tracker.update
+        ex._marginal_loss_tracker.update = lambda v: (marg.append(v), real_m(v))[1]
+    x2, y2 = sym_row(env, names, 'x2'), env.real('y2')
+    guarded(env, 'explain_one#2', ex.explain_one, x2, y2, update_storage=False)
+    if len(fed) != 1:
+        env.fail('importance_tracker_fed_once', f"{len(fed)} updates")
+        return None
+    w, _ = env.path_weight()
+    b2 = dict(b, x=x2, y=y2, rows=rows_now)
+    # group the paths by what the storage holds before the second call (reservoirs replace a random slot)
+    key = tuple(id(r) for r in rows_now) if env.mode == 'sym' else tuple(tuple(sorted((k, str(v)) for k, v in r.items())) for r in rows_now)
+    return {'contrib': {f: fed[0][f] for f in names}, 'weight': w, 'b': b2, 'sl0': marg[0] if marg else None,
+            'pc': list(getattr(env, 'pc', [])), 'history_key': _rows_key(rows_now, b)}
+
+
+def _rows_key(rows_now, b):
+    """which of the known row objects (old rows / first observation) are stored, by position"""
+    pool = list(b['rows']) + [b['x']]
+    return tuple(next((i for i, p in enumerate(pool) if p is r), -1) for r in rows_now)
 
 
 def _inc_path(env, cfg, ctx):
@@ -225,8 +269,12 @@ def _expected(results):
 def post_explore(env, cfg, results):
     if not [r for r in results if r]:
         return
+    if cfg['group'] == 'inc_history':
+        return _post_history(env, cfg, [r for r in results if r])
     exp, tot, r0 = _expected(results)
-    env.global_claim('path_weights_sum_to_one', z3.BoolVal(tot == 1))
+    ok, _m = env.global_claim('path_weights_sum_to_one', z3.BoolVal(tot == 1))
+    if ok is False:
+        env.failures.append(Failure('path_weights_sum_to_one', [], None, f"total weight of the explored draw sequences is {tot}"))
     from symx import core
     prev, core.CUR = core.CUR, env       # the oracle builds symbolic terms (divisions by concrete counts only)
     try:
@@ -250,6 +298,38 @@ def post_explore(env, cfg, results):
     env.canary_seen['shifted_expectation_refuted'] = good
 
 
+def _post_history(env, cfg, results):
+    """conditional expectation of the second call given the storage content it started from"""
+    from symx import core
+    groups = {}
+    for r in results:
+        groups.setdefault(r['history_key'], []).append(r)
+    # (no sum-to-one claim here: whether a reservoir accepts the arrival is a non-probabilistic fork of the symbolic state;
+    #  expectations are therefore taken conditionally on the storage content before the second call)
+    for key, rs in sorted(groups.items()):
+        wsum = sum((r['weight'] for r in rs), Fraction(0))
+        names = list(rs[0]['contrib'].keys())
+        exp = {f: 0 for f in names}
+        for r in rs:
+            for f in names:
+                exp[f] = exp[f] + r['contrib'][f] * (r['weight'] / wsum)
+        prev, core.CUR = core.CUR, env
+        try:
+            env.start_path([])
+            env.stats.paths -= 1
+            oracle = _oracle_inc(cfg, rs[0])
+        finally:
+            core.CUR = prev
+        for f in names:
+            name = f"expected_contribution_after_history[{f},{key}]"
+            ok, model = env.global_claim(name, to_real(lift(exp[f])) == to_real(lift(oracle[f])), assumptions=rs[0]['pc'])
+            if ok is False:
+                env.failures.append(Failure('expected_contribution_after_history', [], model,
+                                            f"second explanation, storage content {key}: E over the draws of the contribution of {f!r} "
+                                            f"!= exact value for the rows stored at that moment"))
+    env.canary_seen['history_groups_found'] = len(groups) >= 1
+
+
 # ---- concrete replay: exhaustive enumeration of the real code's draws with Fractions ------------------
 
 def _concrete_replay(env, cfg):
@@ -263,6 +343,19 @@ def _concrete_replay(env, cfg):
             r['weight'] = w
             results.append(r)
     if not results:
+        return
+    if cfg['group'] == 'inc_history':
+        groups = {}
+        for r in results:
+            groups.setdefault(r['history_key'], []).append(r)
+        for key, rs in sorted(groups.items()):
+            wsum = sum((r['weight'] for r in rs), Fraction(0))
+            for f in rs[0]['contrib']:
+                e = sum((Fraction(r['contrib'][f]) * (r['weight'] / wsum) for r in rs), Fraction(0))
+                o = Fraction(_oracle_inc(cfg, rs[0])[f])
+                env.claim('expected_contribution_after_history', e == o,
+                          detail=f"second explanation, storage content {key}, feature {f!r}: exact expectation over the draws {e}, "
+                                 f"exact value for the rows stored at that moment {o}")
         return
     exp, tot, r0 = _expected(results)
     env.claim('path_weights_sum_to_one', tot == 1)
